@@ -17,7 +17,7 @@ NC_NOTE = ("Trusted: TLC; the observer module spec/NetcodeObs.tla; the symbolic 
            "the OS RNG and key secrecy are trusted; datagram labels (genuine / replay / re-addressed / mutated / crafted) are ground truth by "
            "construction of the harness, datagrams are opened with the keys the harness issued through the crate's own codec (`verif` feature). "
            "Model configs run the intended design (TokenSingleUse = TRUE); the code's deviation D18 is a recorded known finding. Exhaustive only "
-           "within the stated small scopes (2-3 identities, 6-9 steps); the 2048-entry token table is filled by one dedicated history "
+           "within the stated small scopes (2-3 identities, 6-9 steps), secure and unsecure authentication; the 2048-entry token table is filled by one dedicated history "
            "(known finding D21), the replay window's at-most-once property is proved for all sequence numbers with TLAPS (spec/ReplayWindow.tla).")
 
 
@@ -44,14 +44,19 @@ CHECKS = {
                "unchanged, no reply, no result); model-exported handshake races keep the table model in the loop."),
     "C10": _nc("Netcode.tla: two tokens for one id + a third identity, 3 slots, honest exchanges and disconnects in any order (7 steps): two "
                "half-open sessions for one id, slots freed in front of an established session; clauses C10_Unique, C10_Bounded, "
-               "C10_EventsMatch, C10_Lookups, C10_FullRefuses on the table snapshot after every server call; replay + seeded histories."),
+               "C10_EventsMatch, C10_Lookups, C10_FullRefuses on the table snapshot after every server call; run-time limit changes; "
+               "ServerAuthentication::Unsecure (zero-key tokens listing any host connect, tokens sealed with the real key do not); a client "
+               "program restarted behind the same address (second client object, fresh token, same id, 1 s time-outs); replay + seeded histories."),
     "C16": _msg("MC_Wire.tla: the pending-ack range list (add_pending_ack as transcribed in Renet.tla, cap 3) under every arrival order of up "
                 "to 7 sequence numbers out of 10 stays sorted / disjoint / non-adjacent / within the cap / a subset of what arrived, and the "
                 "delta coding of ack packets satisfies Decode(Encode(r)) = r on every reachable list; every list is exported, shifted across "
                 "the varint width boundaries and round-tripped through the real encoder/decoder; packets of every kind with fields at "
                 "0/1/63/64/16383/16384/2^30-1/2^30/2^62-1; netcode packets of every kind x 15 sequence values x payload lengths; tokens with "
                 "1..32 IPv4/IPv6 addresses through write/read and seal/open; decode-reencode-decode on valid, truncated, byte-replaced and random "
-                "strings and on live session datagrams; C16_AckSet: the ack packet of every flush equals verif_pending_acks."),
+                "strings and on live session datagrams; C16_AckSet: the ack packet of every flush equals verif_pending_acks; MC_WireContract.tla: "
+                "add_pending_ack, acked_largest and the ack codec as functions against a declarative contract (result = the newest cap maximal "
+                "runs of the set plus the arrival; acked_largest removes exactly 0..a; Decode(Encode(r)) = r) for EVERY canonical range list "
+                "over 0..11 (thorough 0..13, cap 4) x every arriving sequence number, not only the reachable ones."),
     "C20": {"category": "model_checking",
             "text": "MC_Transport.tla models the renet_netcode glue (server update: process datagrams -> add/remove_connection, update_client, push "
                     "renet disconnections down; client update; per step, client and direction the relay passes or drops what is queued; up to two "
@@ -62,7 +67,8 @@ CHECKS = {
                     "Disconnected; 1 client quick, 2 clients / 1.0 M states thorough); sampled behaviours are replayed on the REAL "
                     "NetcodeServerTransport / NetcodeClientTransport over loopback UDP behind the harness relay, followed by good rounds; plus "
                     "seeded relay schedules (drop / duplicate / hold / late + replayed / bit-corrupted datagrams, 2-4 clients, staggered joins, "
-                    "churn, cut-off clients); clauses C20_LockStep (renet ids = netcode ids = client_addr map after every server update), "
+                    "churn, cut-off clients, a client program restarted behind the same address with a fresh token for the same id before / after "
+                    "the server's time-out with its farewell lost or delivered); clauses C20_LockStep (renet ids = netcode ids = client_addr map after every server update), "
                     "_EventsOnce, _BothSides, _OnlyTimeouts, _Connects, end-to-end E2E_Same / _Ordered / _Once / _Live.",
             "note": "Trusted: TLC, spec/TransportObs.tla, loopback UDP (synchronous delivery, bounded poll otherwise); time is virtual (duration "
                     "argument). The glue model abstracts both layers to per-id states and datagram kinds; its strict pass compares client status, "
@@ -85,27 +91,34 @@ CHECKS = {
                "histories with padded, truncated, replayed, re-addressed requests, full servers and raw datagram shapes."),
     "C02": _msg("TLC explores ReliableUnordered workloads (three one-packet messages; small + 3-slice message; 3-slice message with acks and "
                 "retransmission) with duplicates and application receives between any two arrivals; clauses C02_AtMostOnce, C02_Eager (a "
-                "receive that returns nothing while a complete message is held back), C02_Live; all model states replayed on the code; "
+                "receive that returns nothing while a complete message is held back), C02_Live, C02_DupHarmless (a duplicate arriving while the "
+                "receive budget is exactly used up by what is outstanding must not end the connection: 12-byte channel, messages of 2+5+5 "
+                "bytes in three packets, any order, duplicates); all model states replayed on the code; "
                 "seeded-random fault schedules."),
     "C03": _msg("TLC explores unreliable sliced + small messages and unreliable/reliable mixes with duplicates; clauses C03_Same (obtained "
                 "bytes were submitted on that very connection/direction/channel) and C03_UnrelCount (copies obtained <= what the deliveries "
                 "of every needed packet justify); message bytes are position dependent so misplaced or stitched fragments cannot collide "
                 "with a submitted message; replay + seeded-random schedules with boundary sizes."),
     "C08": _msg("TLC explores acks, acks of acks and retransmissions (two small messages with 2+2 flushes; a 3-slice message) under any "
-                "loss/reordering; clauses C08_ReleaseSound (a message that left the sender's unacked set was completely handed to the "
+                "loss/reordering; the pending-ack range list as a function against its declarative contract for every canonical list "
+                "(MC_WireContract: nothing that did not arrive is ever denoted); clauses C08_ReleaseSound (a message that left the sender's unacked set was completely handed to the "
                 "peer) and C08_AckSound (every acknowledged sequence number was received); replay + seeded-random ack-loss schedules."),
     "C06": _msg("TLC injects one abstract hostile packet (every combination of channel right-kind/wrong-kind/absent, message id below/at/above "
                 "the cursor/open reassembly/far, announced slice count, slice index inside/last/one past/far, payload length 0/1/1199/1200/1201, "
                 "hostile acks, undecodable bytes) at any point of a session with an unreliable and a reliable sliced message in flight; clauses "
                 "C06_NoPanic, C06_ProcessedOrDropped, C06_MemoryBounded, C06_StillUsable; exported to bytes and replayed; plus structural "
-                "field-boundary packets, contradictory slice groups, truncations, header-byte replacements and seeded random strings against "
+                "field-boundary packets, contradictory slice groups, one message id submitted twice with different sizes while buffered "
+                "behind a gap (then drained), truncations, header-byte replacements and seeded random strings against "
                 "a two-connection server whose second connection must still satisfy the C01-C03 clauses and complete."),
     "C09": _msg("TLC explores duplicates of slices after consumption, unreliable fragments and retransmission with the observer's own upper "
                 "accounting of what may legitimately be counted: C09_Range, C09_NoLeak (send side: used <= bytes of unreleased messages; "
                 "receive side: rmem <= complete-not-obtained bytes + n*1200 per legitimately open reassembly, unreliable ones closing 3 s after "
-                "their last slice), C09_NoSpuriousDisconnect; replay + seeded-random schedules with tight budgets, ticks around 3000 ms, long runs."),
+                "their last slice), C09_NoSpuriousDisconnect (a memory disconnect must be justified by what the channel legitimately holds plus "
+                "the bytes the packet NEWLY brings - duplicates cost nothing; exhaustive on a channel whose budget is exactly what the "
+                "outstanding messages need); replay + seeded-random schedules with tight budgets, ticks around 3000 ms, long runs."),
     "C11": _msg("MC_Server.tla (RenetServer over one Renet world per client): unicast and broadcast(_except) interleaved with flush / deliver / "
-                "receive over two clients, loss, good rounds; clauses of C01-C03 per (client, direction, channel) stream make cross-delivery, "
+                "receive over two clients, loss, good rounds, also on a send channel that holds two messages but not three (a broadcast that "
+                "finds one client saturated disconnects that client and reaches the other); clauses of C01-C03 per (client, direction, channel) stream make cross-delivery, "
                 "duplication and missing broadcast targets visible, C11_NotStarved (a queued message for which the tick's budget still has room "
                 "is not left behind because another channel stalls); replay + seeded-random 2-3 client schedules with one client hostile, "
                 "stalled, disconnected or with a stalled reliable channel; the clauses of C08 on every stream (an ack caused by one channel's "
